@@ -221,7 +221,9 @@ func C08(c *Ctx) {
 	}
 
 	// R08.2
-	safeCallee := func(call ssa.CallInstruction) bool {
+	safeFn := map[*ssa.Function]int{} // 1 = only safe calls inside, 2 = not, 3 = being evaluated
+	var safeCallee func(call ssa.CallInstruction) bool
+	safeCallee = func(call ssa.CallInstruction) bool {
 		if _, ok := call.Common().Value.(*ssa.Builtin); ok {
 			return true
 		}
@@ -241,6 +243,30 @@ func C08(c *Ctx) {
 		}
 		if callee := core.StaticCallee(call); callee != nil && recovering[callee] {
 			return true
+		}
+		// a helper of the executor that itself calls nothing but safe callees (e.g. the per-group loop of verifyProofs)
+		if callee := core.StaticCallee(call); callee != nil && len(callee.Blocks) > 0 && core.PkgOf(callee) == "internal/executor" {
+			switch safeFn[callee] {
+			case 1:
+				return true
+			case 2, 3:
+				return false
+			}
+			safeFn[callee] = 3
+			ok := true
+			for _, f := range core.WithClosures(callee) {
+				for _, cc := range core.Calls(f) {
+					if !safeCallee(cc) {
+						ok = false
+					}
+				}
+			}
+			if ok {
+				safeFn[callee] = 1
+			} else {
+				safeFn[callee] = 2
+			}
+			return ok
 		}
 		return false
 	}
@@ -476,7 +502,9 @@ func C08(c *Ctx) {
 		}
 		r.Check(ok, "R08.5", "ApplyTransactions: one receipt per transaction, in block order", c.P.Pos(ap.Pos()), "single unconditional append of applyTxFunc(i, tx, ..) in the loop over txs", "the receipts of a block do not correspond one-to-one, in order, to its transactions: "+why)
 	}
-	nonNilReturn := func(fn *ssa.Function, allowedCalls ...string) (bool, string) {
+	var nonNilReturn func(fn *ssa.Function, allowedCalls ...string) (bool, string)
+	nonNilDepth := 0
+	nonNilReturn = func(fn *ssa.Function, allowedCalls ...string) (bool, string) {
 		for _, ret := range core.Returns(fn) {
 			for _, o := range core.RetOrigins(ret.Results[0]) {
 				switch x := o.V.(type) {
@@ -488,6 +516,12 @@ func C08(c *Ctx) {
 						if strings.HasSuffix(core.CalleeName(x), a) {
 							okc = true
 						}
+					}
+					// a helper of the executor that builds the receipt: all of its returns are allocations
+					if g := core.StaticCallee(x); !okc && g != nil && len(g.Blocks) > 0 && core.PkgOf(g) == "internal/executor" && nonNilDepth < 2 {
+						nonNilDepth++
+						okc, _ = nonNilReturn(g)
+						nonNilDepth--
 					}
 					if okc {
 						continue
